@@ -298,19 +298,34 @@ fn position_in_range(start: (u32, u32), end: (u32, u32), target: LineChar) -> bo
 }
 
 fn get_index_of_line_char(source: &str, line_char: LineChar) -> u32 {
-    let mut remaining_line_breaks = line_char.line;
-    for (index, char) in source.chars().enumerate() {
-        if char == '\n' {
-            remaining_line_breaks -= 1;
+    // byte index of the start of the requested line
+    let mut line_start = 0;
+    if line_char.line > 0 {
+        let mut remaining_line_breaks = line_char.line;
+        for (index, char) in source.char_indices() {
+            if char == '\n' {
+                remaining_line_breaks -= 1;
+                if remaining_line_breaks == 0 {
+                    line_start = index + 1;
+                    break;
+                }
+            }
         }
-
-        if remaining_line_breaks == 0 {
-            // Why were we off by one to begin with? This is a bad fix!
-            return index as u32 + line_char.character + 1;
+        if remaining_line_breaks > 0 {
+            // Should we panic?
+            return source.len() as u32;
         }
     }
 
-    // Should we panic?
+    // LSP columns count UTF-16 code units: advance that many units along the line
+    let mut remaining_units = line_char.character;
+    for (index, char) in source[line_start..].char_indices() {
+        if remaining_units == 0 || char == '\n' {
+            return (line_start + index) as u32;
+        }
+        remaining_units = remaining_units.saturating_sub(char.len_utf16() as u32);
+    }
+
     source.len() as u32
 }
 
